@@ -1,10 +1,47 @@
 package main
 
-// C16: GoLite targets (docs/GOLITE_NOTES.md).
+// C16: GoLite targets (docs/GOLITE_NOTES.md). Theorems: coq/props/C16_Generated.v,
+// table and what stays outside: docs/audit/C16.md section "GoLite".
 func init() {
+	const core = "github.com/notaryproject/notation-core-go/signature"
 	Register("C16", []Target{
+		// the name checks and derivations of the plugin manager
 		{Pkg: ".../plugin", Func: "validatePluginName"},
 		{Pkg: ".../plugin", Func: "parsePluginName"},
+		{Pkg: ".../plugin", Func: "binName"},
+
+		// NewCLIPlugin: the stat of the executable path (tail of CLIManager.Get)
+		{Pkg: "os", Func: "Stat", Oracle: true},
+		{Pkg: "io/fs", Type: "FileInfo", Opaque: true, Views: map[string]string{"Mode().IsRegular()": "bool"}},
+		{Pkg: ".../plugin", Func: "NewCLIPlugin"},
+
+		// the metadata a plugin process printed: validate (GetMetadata itself calls
+		// run(.., req plugin.Request, resp interface{}): outside the subset)
+		{Pkg: ".../internal/slices", Func: "Contains"},
+		{Pkg: ".../plugin", Func: "validate", NonNil: true},
+
+		// the verifier: the signature-supplied name (and minimum version)
+		{Pkg: core, Type: "SignerInfo", Opaque: true},
+		// comma-ok type assertion attr.Value.(string) (verifier/helpers.go:99) is outside the subset: an oracle
+		{Pkg: ".../verifier", Func: "extractCriticalStringExtendedAttribute", Oracle: true},
+		{Pkg: ".../verifier", Func: "getVerificationPlugin"},
+		{Pkg: ".../internal/semver", Func: "IsValid", Oracle: true},
+		{Pkg: ".../verifier", Func: "getVerificationPluginMinVersion"},
+
+		// refused; kept because the reasons document what C16 still ties to the code
+		// by the correspondence harness only:
+		// variadic method SysPath(items ...string) / filepath.Join(pathItems...)
+		{Pkg: ".../dir", Func: "sysFS.SysPath"},
+		// struct CLIManager has the single field pluginFS dir.SysFS (a two-method
+		// interface): no translatable field; then the variadic interface call
+		// m.pluginFS.SysPath(..) and path.Join(name, binName(name))
+		{Pkg: ".../plugin", Func: "(*CLIManager).Get"},
+		{Pkg: ".../plugin", Func: "(*CLIManager).Uninstall"},
+		// the filtering decisions are inside closures passed to fs.WalkDir / filepath.WalkDir
+		{Pkg: ".../plugin", Func: "(*CLIManager).List"},
+		{Pkg: ".../plugin", Func: "parsePluginFromDir"},
+		// fi.Mode() bound to a local, then mode.Perm()&0100 (bit operation)
+		{Pkg: ".../plugin", Func: "isExecutableFile"},
 		// any is not in the subset: kept as the standing example of a refused target
 		{Pkg: ".../internal/slices", Func: "ContainsAny"},
 	})
